@@ -1,6 +1,7 @@
 package vh
 
 import (
+	"strings"
 	"crypto"
 	"crypto/ecdsa"
 	"crypto/ed25519"
@@ -50,12 +51,42 @@ func loadPool() {
 // Key returns a private key of the committed pool.
 func Key(name string) crypto.Signer {
 	poolOnce.Do(loadPool)
+	derivedMu.Lock()
+	defer derivedMu.Unlock()
 	k, ok := poolKeys[name]
-	if !ok {
-		panic("keypool: unknown key " + name)
+	if ok {
+		return k
 	}
-	return k
+	if dk, ok := derivedKeys[name]; ok {
+		return dk
+	}
+	// "<rsa key>+e<bits>": the same modulus under the public exponent 2^bits + 1 (3 for bits = 1), with
+	// the matching private exponent; only its numbers are used (the library refuses to sign with
+	// exponents beyond 31 bits)
+	if base, bits, found := strings.Cut(name, "+e"); found {
+		if bk, isRSA := poolKeys[base].(*rsa.PrivateKey); isRSA {
+			var nb int
+			fmt.Sscanf(bits, "%d", &nb)
+			e := new(big.Int).Add(new(big.Int).Lsh(big.NewInt(1), uint(nb)), big.NewInt(1))
+			phi := new(big.Int).Mul(new(big.Int).Sub(bk.Primes[0], big.NewInt(1)), new(big.Int).Sub(bk.Primes[1], big.NewInt(1)))
+			d := new(big.Int).ModInverse(e, phi)
+			if d != nil && e.IsInt64() {
+				dk := &rsa.PrivateKey{PublicKey: rsa.PublicKey{N: bk.N, E: int(e.Int64())}, D: d, Primes: bk.Primes}
+				derivedKeys[name] = dk
+				return dk
+			}
+			// no such private exponent for this modulus (the exponent divides p-1 or q-1): the base key stands in
+			derivedKeys[name] = bk
+			return bk
+		}
+	}
+	panic("keypool: unknown key " + name)
 }
+
+var (
+	derivedMu   sync.Mutex
+	derivedKeys = map[string]crypto.Signer{}
+)
 
 // RSAKey returns an RSA private key of the pool.
 func RSAKey(name string) *rsa.PrivateKey { return Key(name).(*rsa.PrivateKey) }
